@@ -124,6 +124,19 @@ impl Tr {
         let g = got as f64;
         g.is_finite() && (g - self.v).abs() <= k * self.err + U * self.v.abs() + 1e-44
     }
+    /// The same with a bound that does not favour one evaluation order: besides the running bound
+    /// of this formula, k roundings relative to the sum of the magnitudes of all terms (another
+    /// association may pass through larger intermediate values than this one does).
+    pub fn agrees_any_order(&self, got: f32, k: f64) -> bool {
+        if !self.v.is_finite() || self.v.abs() > 3e38 {
+            return true;
+        }
+        if self.robust {
+            return got as f64 == self.v;
+        }
+        let g = got as f64;
+        g.is_finite() && (g - self.v).abs() <= k * (self.err + U * self.mag) + U * self.v.abs() + 1e-44
+    }
     pub fn show(&self) -> String {
         if self.robust {
             format!("{:?} (exact)", self.v)
